@@ -280,3 +280,23 @@ func (e *Env) Close() {
 		_ = c.Close()
 	}
 }
+
+// NewNetwork moves the registry to a fresh network (tenant) id derived from
+// the run's seed. Every run then lives in its own UUID space (object and
+// subject ids are UUIDv5(network, string)), so no process-level state keyed by
+// those ids can leak from one run into the next - a run stays a function of
+// (seed, run) even for a keto that keeps such state.
+func (e *Env) NewNetwork(seed uint64) {
+	var u uuid.UUID
+	s := seed
+	for i := 0; i < 16; i += 8 {
+		v := splitmix(&s)
+		for j := 0; j < 8; j++ {
+			u[i+j] = byte(v >> (8 * j))
+		}
+	}
+	u.SetVersion(uuid.V4)
+	u.SetVariant(uuid.VariantRFC4122)
+	e.AddNetwork(u)
+	e.Reg.Persister().SetNetwork(u)
+}
